@@ -912,6 +912,19 @@ class PackageGen:
             syms = syms[:len(vals)]
             if r.chance(0.2):
                 vals[0] = 0 if 0 not in vals else vals[0]
+            k = r.fork("multibit", name)
+            free = [b for b in range(0, min(7, hi.bit_length())) if not any(v >> b & 1 for v in vals)]
+            if len(vals) >= 2 and k.chance(0.3):
+                # a composite symbol: the union of two others (`readWrite: 3`)
+                a, b = k.sample([v for v in vals if v], 2) if len([v for v in vals if v]) >= 2 else (vals[-1], vals[-1])
+                if (a | b) not in vals:
+                    vals.append(a | b)
+                    syms = syms + self.member_names(1)
+            if len(free) >= 2 and k.chance(0.3):
+                # a symbol of several bits none of which has a symbol of its own
+                two = k.sample(free, 2)
+                vals.append((1 << two[0]) | (1 << two[1]))
+                syms = syms + self.member_names(1)
         else:
             seen = set()
             while len(vals) < n:
